@@ -107,7 +107,9 @@ def strip_escapes(s):
 # ------------------------------------------------------------------------------ one evaluation
 def dangling_value_option(before):
     """an option that requires a value stands last or directly in front of another dash token"""
-    return any(t in ("--val", "-w") and (i + 1 == len(before) or before[i + 1].startswith("-")) for i, t in enumerate(before))
+    return any((t in ("--val", "-w") and (i + 1 == len(before) or before[i + 1].startswith("-")))
+               or t.startswith("--opt=")  # ... or a flag is written with a value: no command can parse that either
+               for i, t in enumerate(before))
 
 
 def evaluate(tree_json, line, path, behaviour, warm=False):
